@@ -312,11 +312,11 @@ rc::Gen<scase_t> gen_case(const family_t family)
     const auto g_evals = rc::gen::map(rc::gen::pair(gen::range<int>(0, 99), gen::real(0.0, 1.0)),
                                       [=](const std::pair<int, double>& p)
                                       {
-                                          if (p.first < (family == family_t::ellipsoid ? 50 : 20))
+                                          if (p.first < (family == family_t::ellipsoid ? 50 : 10))
                                           {
                                               return 20000;
                                           }
-                                          if (p.first < 60)
+                                          if (p.first < (family == family_t::ellipsoid ? 60 : 30))
                                           {
                                               return 100 + static_cast<int>(std::lround(19900.0 * p.second));
                                           }
@@ -466,7 +466,8 @@ verdict_t check_case(const scase_t& c, ctx_t& ctx)
     nano::solver_state_t state;
     try
     {
-        state = solver->minimize(function, x0, nano::make_null_logger());
+        // triage aid: VERIF_SOLVER_LOG=1 prints the solver's own log of a replayed case (no influence on the verdict)
+        state = solver->minimize(function, x0, std::getenv("VERIF_SOLVER_LOG") != nullptr ? nano::make_stderr_logger() : nano::make_null_logger());
     }
     catch (const runaway_t&)
     {
@@ -521,6 +522,17 @@ verdict_t check_case(const scase_t& c, ctx_t& ctx)
                                      : 2.0L * static_cast<long double>(c.epsilon) * std::sqrt(static_cast<long double>(c.n)) * (1.0L + ref.dist);
         const auto ratio = static_cast<double>(ref.gap / bound);
         ctx.maximum("gap/bound:" + c.solver, ratio);
+        // mechanism of finding F12: the proximity parameter has no lower bound after initialisation, a curve-search trial
+        // point lands astronomically far away (|f| ~ 1e13) and the linearisation errors computed from it are rounding
+        // noise of the size of the tolerance: 4*eps_machine*max|f shown to the solver| explains the excess gap
+        const auto noise = 4.0 * std::numeric_limits<double>::epsilon() * function.max_abs_value();
+        ctx.maximum("cancellation-noise/bound", noise / static_cast<double>(bound));
+        if (ratio > 1.0 && !ellipsoid && static_cast<double>(ref.gap) <= 100.0 * noise)
+        {
+            return verdict_t::known("C03/converged-not-optimal/far-trial-point-cancellation",
+                                    cat("f(x)-f*=", static_cast<double>(ref.gap), " bound=", static_cast<double>(bound),
+                                        " max|f| shown to the solver=", function.max_abs_value(), "; ", info()));
+        }
         if (ratio > 10.0)
         {
             return verdict_t::violation("C03/converged-not-optimal/" + c.solver,
